@@ -81,6 +81,18 @@ def run(ctx, chk):
             if not ok and a['ok']:
                 a['ok'] = False
                 a['why'] = why
+    # .. and every value written into a colour field of a rendition directly (`attr.fg = ..`, `CharOpts { fg, .. }`),
+    # whichever value it is part of (the cursor rendition, a working copy, a cell)
+    for e in sr['events']:
+        ev = e['ev']
+        if ev[0] == 'colour.store' and isinstance(ev[2], StrV):
+            ok, why = colour_ok(eng, e['st'], ev[2])
+            k = (short(e['func']), 'field:%s@line-ordinal %s' % (ev[1], field_store_ord(prog, e)))
+            a = sites.setdefault(k, dict(ok=True, why=why, span=e['span'], n=0, kind=ev[1]))
+            a['n'] += 1
+            if not ok and a['ok']:
+                a['ok'] = False
+                a['why'] = why
     for (f, c), a in sorted(sites.items()):
         chk.instance('R-COLOUR', f, c, a['ok'], detail='%s (%d visits)' % (a['why'], a['n']), span=a['span'],
                      what='a %s value that is neither a documented colour name nor a 6-digit hex string can be stored: %s' % (a['kind'], a['why']))
@@ -293,7 +305,35 @@ def colour_ok(eng, st, v):
             return okf, ('hex formatter: ' + whyf)
         if p[0] == 'inv':
             return True, 'copy of a stored colour (invariant I8)'
+        if p[0] == 'map-value-const' and len(p) > 1:
+            if p[1] in ('fg', 'bg'):
+                return True, 'the text a rendition map holds under %r (every insert under that key is checked)' % p[1]
+            return False, 'text of a map entry whose key is %r' % (p[1],)
+        if p[0] == 'map-value' and len(p) > 1:
+            # taken out of a String -> String map while iterating it, on a path where the key in hand is known
+            key = st.vn.get(('strval', p[1]))
+            if key in ('fg', 'bg'):
+                return True, 'the text a rendition map holds under %r (every insert under that key is checked)' % key
+            return False, 'text of a map entry whose key is %r' % (key,)
     return False, 'provenance %r' % (p,)
+
+
+def field_store_ord(prog, e):
+    """ordinal (source order) of the line of a colour-field store among the lines of its function (stable under edits elsewhere)"""
+    body = prog.bodies.get(e['func'])
+    line = (e.get('span') or {}).get('line')
+    if body is None or line is None:
+        return '?'
+    lines = set()
+    for bb in body.blocks:
+        for s_ in bb['stmts']:
+            if s_['k'] == 'assign':
+                pr = s_['place']['proj']
+                if (pr and pr[-1]['k'] == 'field' and pr[-1].get('name') in ('fg', 'bg')) or (s_['rv'].get('k') == 'aggregate' and s_['rv'].get('adt') == 'screen::CharOpts'):
+                    if (s_.get('span') or {}).get('line') is not None:
+                        lines.add(s_['span']['line'])
+    ls = sorted(lines)
+    return '#%d' % ls.index(line) if line in ls else '?'
 
 
 def display_length(ctx, eng, disp):
